@@ -441,6 +441,10 @@ func (res *Resource) Purge(keepExtra int) { //nolint:gocognit
 		keepExtra = 2
 	}
 
+	// The boundary search needs the newest version first: versions added
+	// since the last selection are still unsorted.
+	sort.Sort(res)
+
 	// Search for purge boundary.
 	purgeBoundary := len(res.Versions)
 	var keptExtra int
